@@ -339,7 +339,7 @@ pub fn reduce(batch: &str, prog: &Prog, script: &Script, kind: &str, rounds: usi
         if !cands.is_empty() {
             compiles += 1;
             let mut stats = SemStats::default();
-            if let Some(p) = prepare(SemCase { prog: prog.clone(), scripts: cands }, &mut stats) {
+            if let Some(p) = prepare(SemCase { prog: prog.clone(), scripts: cands, tags: vec![] }, &mut stats) {
                 let mut failing_idx = vec![];
                 let prepared = vec![p];
                 let _ = run_prepared(batch, &prepared, &mut stats, |_, si, _, r| {
@@ -366,7 +366,7 @@ pub fn reduce(batch: &str, prog: &Prog, script: &Script, kind: &str, rounds: usi
         cands.truncate(32);
         if !cands.is_empty() {
             compiles += 1;
-            let cases: Vec<SemCase> = cands.iter().map(|(p, s)| SemCase { prog: p.clone(), scripts: vec![s.clone()] }).collect();
+            let cases: Vec<SemCase> = cands.iter().map(|(p, s)| SemCase { prog: p.clone(), scripts: vec![s.clone()], tags: vec![] }).collect();
             let r = failing(batch, cases, kind);
             let mut best: Option<usize> = None;
             for (k, f) in r.iter().enumerate() {
